@@ -16,6 +16,9 @@
     * shuttle-schedulers `random.rs` (RandomScheduler)
 
   Conventions: every machine integer is a `Nat`; wrap-around is made explicit with `% 2^k`.
+  Products with a large constant are written `CONSTANT * x` (never `x * CONSTANT`): `Nat.mul`
+  recurses on its second argument, and the kernel's `whnf` of `x * 0x2360…` for a symbolic `x`
+  descends 2^125 levels (any proof whose type-check has to weak-head-normalise such a term hangs).
   A 64-bit target is assumed (`usize` = `u64`), as in the Rust validation run.
   Every Rust panic and every unmodelled branch is an explicit `none`.
   Unbounded rejection loops take explicit fuel (`none` when the fuel runs out).
@@ -55,7 +58,7 @@ structure Pcg where
 def seedPcg32 (state : Nat) : Nat × Nat :=
   let MUL : Nat := 6364136223846793005
   let INC : Nat := 11634580027462260723
-  let state := (state * MUL + INC) % two64
+  let state := (MUL * state + INC) % two64
   let xorshifted := (((state >>> 18) ^^^ state) >>> 27) % two32
   let rot := state >>> 59
   (rotr32 xorshifted rot, state)
@@ -70,7 +73,7 @@ def seedFromU64 (seed : Nat) : Pcg :=
   let (x1, s) := seedPcg32 s
   let (x2, s) := seedPcg32 s
   let (x3, _) := seedPcg32 s
-  Pcg.new (x0 + x1 * two32 + x2 * two64 + x3 * (two64 * two32))
+  Pcg.new (x0 + two32 * x1 + two64 * x2 + (two64 * two32) * x3)
 
 /-- `output_xsl_rr`. -/
 def outputXslRr (state : Nat) : Nat :=
@@ -80,13 +83,12 @@ def outputXslRr (state : Nat) : Nat :=
 
 /-- `RngCore::next_u64`: the state is advanced FIRST, the output is a function of the NEW state. -/
 def nextU64 (g : Pcg) : Nat × Pcg :=
-  let s := (g.state * MULTIPLIER) % two128
+  let s := (MULTIPLIER * g.state) % two128
   (outputXslRr s, { state := s })
 
 /-- `RngCore::next_u32` = `self.next_u64() as u32`. -/
 def nextU32 (g : Pcg) : Nat × Pcg :=
-  let (v, g') := nextU64 g
-  (v % two32, g')
+  ((nextU64 g).1 % two32, (nextU64 g).2)
 
 /-! ## `UniformInt` (rand 0.8.8, uniform.rs) -/
 
@@ -109,24 +111,35 @@ def wmulStep (B range zone v : Nat) : Option Nat :=
   let m := v * range
   if m % B ≤ zone then some (m / B) else none
 
+/-- Generic fuelled "draw until accepted" loop: `body` consumes raw draws and either accepts with a
+    value or rejects; `none` when the fuel runs out.
+    (Kept generic in `body` on purpose: its equation lemmas are then generated with `body` opaque.
+    Unfolding a recursive function whose body mentions the PCG arithmetic directly makes Lean's
+    equation-lemma generation blow up.) -/
+def retryLoop {α : Type} (body : Pcg → Option α × Pcg) : Nat → Pcg → Option (α × Pcg)
+  | 0, _ => none
+  | fuel + 1, g =>
+    match body g with
+    | (some a, g') => some (a, g')
+    | (none, g') => retryLoop body fuel g'
+
+/-- One iteration of `loop { let v: u32 = rng.gen(); let (hi, lo) = v.wmul(range);
+    if lo <= zone { return low.wrapping_add(hi) } }`. -/
+def sampleBody32 (range zone low : Nat) (g : Pcg) : Option Nat × Pcg :=
+  ((wmulStep two32 range zone (nextU32 g).1).map (fun hi => (low + hi) % two32), (nextU32 g).2)
+
+/-- Same for `u64` / `usize`. -/
+def sampleBody64 (range zone low : Nat) (g : Pcg) : Option Nat × Pcg :=
+  ((wmulStep two64 range zone (nextU64 g).1).map (fun hi => (low + hi) % two64), (nextU64 g).2)
+
 /-- The `loop { let v = rng.gen(); … }` of `sample` / `sample_single_inclusive` over `u32`;
     returns `low.wrapping_add(hi)`. -/
-def sampleLoop32 (range zone low : Nat) : Nat → Pcg → Option (Nat × Pcg)
-  | 0, _ => none
-  | fuel + 1, g =>
-    let (v, g') := nextU32 g
-    match wmulStep two32 range zone v with
-    | some hi => some ((low + hi) % two32, g')
-    | none => sampleLoop32 range zone low fuel g'
+def sampleLoop32 (range zone low fuel : Nat) (g : Pcg) : Option (Nat × Pcg) :=
+  retryLoop (sampleBody32 range zone low) fuel g
 
 /-- Same loop over `u64` / `usize`. -/
-def sampleLoop64 (range zone low : Nat) : Nat → Pcg → Option (Nat × Pcg)
-  | 0, _ => none
-  | fuel + 1, g =>
-    let (v, g') := nextU64 g
-    match wmulStep two64 range zone v with
-    | some hi => some ((low + hi) % two64, g')
-    | none => sampleLoop64 range zone low fuel g'
+def sampleLoop64 (range zone low fuel : Nat) (g : Pcg) : Option (Nat × Pcg) :=
+  retryLoop (sampleBody64 range zone low) fuel g
 
 /-- `UniformInt::<u32>::sample_single_inclusive(low, high, rng)`.
     `none` = the `assert!(low <= high)` panic (or argument not a `u32`, or fuel exhausted). -/
